@@ -2250,7 +2250,7 @@ func NewMpReachNLRIAttributeFromNative(a *bgp.PathAttributeMpReachNLRI) (*api.Mp
 	var nexthops []string
 	if a.SAFI == bgp.SAFI_FLOW_SPEC_UNICAST || a.SAFI == bgp.SAFI_FLOW_SPEC_VPN {
 		nexthops = nil
-	} else {
+	} else if a.Nexthop.IsValid() { // an attribute received without next hop has none to report
 		// For backward compatibility with older versions; ipv4-mapped IPv6 addresses printed as IPv4 addresses.
 		nexthops = []string{a.Nexthop.Unmap().String()}
 		if a.LinkLocalNexthop.IsValid() && a.LinkLocalNexthop.IsLinkLocalUnicast() {
